@@ -207,7 +207,7 @@ def nontrivial(spec):
 def make_case(ctype):
     @st.composite
     def case(draw):
-        spec = draw(graphs.collection_spec(ctype=ctype))
+        spec = draw(graphs.collection_spec(ctype=ctype, paths="dotdot"))
         spec["audio"] = draw(st.sampled_from(["none", "none", "str", "path", "relstr", "relpath"]))
         spec["cycles"] = draw(st.sampled_from([1, 1, 2, 3]))
         spec["typed_load"] = draw(st.booleans())
